@@ -5,9 +5,15 @@ use autosar_data_specification::{
     AttributeName, AttributeSpec, AutosarVersion, ContentMode, ElementMultiplicity, ElementName,
 };
 use fxhash::FxHashMap;
+#[cfg(not(feature = "verif"))]
 use parking_lot::RwLock;
+#[cfg(feature = "verif")]
+use crate::verif::RwLock;
 use smallvec::SmallVec;
+#[cfg(not(feature = "verif"))]
 use std::collections::HashSet;
+#[cfg(feature = "verif")]
+use crate::verif::DetSet as HashSet;
 use std::sync::Arc;
 
 use crate::{
